@@ -318,6 +318,9 @@ def gen(rng, force=None, dyadic=None, max_segments=10):
     t0 = '2021-03-01 00:00:00'
     if force == 'epoch_zero':
         t0 = '1970-01-01 00:00:00'
+    elif rng.random() < 0.08:
+        # beyond the range of 32-bit epochs (2038-01-19) and of unsigned ones (2106-02-07)
+        t0 = rng.choice(['2041-03-01 00:00:00', '2038-01-18 12:00:00', '2106-02-06 18:00:00'])
     elif rng.random() < 0.3:
         # the record straddles an instant at which some machine time zone changes its offset (the
         # data are in UTC: nothing may happen there)
